@@ -230,7 +230,7 @@ class Check(BaseCheck):
     def __init__(self, tier, seed):
         super().__init__(tier, seed)
         self.quick = tier == 'quick'
-        self.level = 1 if self.quick else 2
+        self.expr_level = 1 if self.quick else 2
         self.sizes = [1, 2, 3] if self.quick else [1, 2, 3, 4]
         self.rots = [0] if self.quick else [0, 1]
         self.inputs = input_tuples()
@@ -243,7 +243,7 @@ class Check(BaseCheck):
         self.e_inputs = [self.inputs[i] for i in sorted(set(core + extra))]
 
     def bounds(self):
-        return {'expr_depth': 2, 'expr_nonleaf_children': self.level, 'stmt_nodes': self.sizes[-1],
+        return {'expr_depth': 2, 'expr_nonleaf_children': self.expr_level, 'stmt_nodes': self.sizes[-1],
                 'hole_rotations': len(self.rots), 'inputs': len(self.inputs), 'values': len(VALS),
                 'expr_contexts': len(EXPR_CTXS), 'stmt_contexts': len(STMT_CTXS)}
 
@@ -374,7 +374,7 @@ class Check(BaseCheck):
         r.sample({'part': 'T', 'example': trees[0][1] if trees else None})
 
     def run_exprs(self, r, i, m):
-        exprs = [(row, t) for k, (row, t) in enumerate(G.expressions(self.level)) if k % m == i]
+        exprs = [(row, t) for k, (row, t) in enumerate(G.expressions(self.expr_level)) if k % m == i]
         inputs = self.e_inputs
         for b in range(0, len(exprs), BATCH):
             chunk = exprs[b:b + BATCH]
